@@ -24,7 +24,12 @@ to False (file is replaced). C17.3: every call from the CLI modules to a
 function that has a confirm_overwrite parameter passes it explicitly with
 provenance `not args.no_warnings`. C17.4: user.confirm returns True only on
 equality of input() with `key` (default 'y'); check_and_confirm_overwrite
-prompts iff os.path.isfile(path) and returns the prompt's result.
+prompts iff os.path.isfile(path) and returns the prompt's result. C17.6:
+library effect of Figure.savefig — a path without extension is *not* the file
+written (matplotlib appends rcParams["savefig.format"]); where the written
+path is composed with an extension obtained from os.path.splitext, that
+extension must be provably non-empty at the sink (guard or default), else the
+prompt was about a different file than the one replaced.
 """
 MANIFEST = dict(
     text="Decides, for every file-creating call site in evo/ (complete "
@@ -55,7 +60,7 @@ TRUSTED = ["python ast semantics", "library effect table in sa/rules/c17.py "
 ASSUMPTIONS = ["A2 (library effect table complete for the APIs evo uses)",
                "main_fig --to_html and main_ipython are outside the "
                "property's command list"]
-FLOORS = {"C17.1": 8, "C17.2": 8, "C17.3": 17, "C17.4": 4}
+FLOORS = {"C17.1": 8, "C17.2": 8, "C17.3": 17, "C17.4": 4, "C17.6": 1}
 
 CHK = "evo.tools.user.check_and_confirm_overwrite"
 CONFIRM = "evo.tools.user.confirm"
@@ -254,6 +259,33 @@ def check(ctx):
     # nothing else may write after a declined prompt: covered because every
     # sink in the function is an obligation of its own.
 
+    # --------------------------------------------------------------- C17.6
+    # library effect: Figure.savefig(path) writes `path` only if it has an
+    # extension; otherwise matplotlib appends rcParams["savefig.format"], so
+    # the prompted path and the written file differ. Where the path is
+    # composed with a file extension taken from os.path.splitext (possibly
+    # ""), that extension must be known to be non-empty.
+    for (q, res, e, p, kind) in subject:
+        if kind != ".savefig":
+            continue
+        last = _last_part(p)
+        state = _nonempty_suffix(last, e.live)
+        if state is None:
+            ctx.ob("C17.6", e, True,
+                   f"{kind} in {q}: the file name is not composed from a "
+                   f"split extension (written path is the prompted path as "
+                   f"given)", key=f"C17.6:suffix:{q}", nontrivial=False)
+            continue
+        ctx.ob("C17.6", e, state,
+               f"{kind} in {q}: the extension appended to the written path "
+               f"is never empty, so the file matplotlib writes is the file "
+               f"the prompt was about" if state else
+               f"{kind} in {q}: the path {fmt(p)[:80]} ends in an extension "
+               f"from os.path.splitext that can be empty; matplotlib then "
+               f"appends its default format and writes (and silently "
+               f"replaces) <path>.png while the overwrite prompt looked at "
+               f"<path>", key=f"C17.6:suffix:{q}", path=fmt(p))
+
     # --------------------------------------------------------------- C17.3
     for q, res in sorted(results.items()):
         mod = res.func.module.name
@@ -282,6 +314,52 @@ def check(ctx):
 
     # --------------------------------------------------------------- C17.4
     _check_prompt(ctx)
+
+
+def _last_part(p: T) -> T:
+    while True:
+        if p.op == "named":
+            p = p.args[1]
+        elif p.op == "binop" and p.args[0] == "Add":
+            p = p.args[2]
+        elif p.op == "fstr" and p.args:
+            p = p.args[-1]
+        else:
+            return p
+
+
+def _is_split_ext(t: T) -> bool:
+    return t.op == "sub" and tm.is_const(t.args[1], 1) and \
+        is_call_to(t.args[0], "os.path.splitext")
+
+
+def _nonempty_suffix(last: T, live: T) -> Optional[bool]:
+    """None: not an extension term; True/False: provably non-empty or not"""
+    if last.op == "ite":
+        c, a, b = last.args
+        ra = _nonempty_suffix(a, tm.mk_and(live, c))
+        rb = _nonempty_suffix(b, tm.mk_and(live, tm.mk_not(c)))
+        if ra is None and rb is None:
+            return None
+        return (ra is not False) and (rb is not False)
+    if _is_split_ext(last):
+        # non-empty iff the path condition says so
+        truthy = tm.fold(live, lambda t: False if t is last else (
+            False if t.op == "cmp" and t.args[0] == "NotEq" and
+            last in (t.args[1], t.args[2]) and any(
+                tm.is_const(z, "") for z in (t.args[1], t.args[2]))
+            else (True if t.op == "cmp" and t.args[0] == "Eq" and
+                  last in (t.args[1], t.args[2]) and any(
+                      tm.is_const(z, "") for z in (t.args[1], t.args[2]))
+                  else None)))
+        return truthy is False
+    if tm.is_const(last) and isinstance(last.args[1], str):
+        return None if not last.args[1].startswith(".") else True
+    if last.op in ("sub", "call", "attr", "global", "named"):
+        # e.g. "." + mpl.rcParams["savefig.format"]: reached through the
+        # concatenation walk only if preceded by other parts
+        return None
+    return None
 
 
 def _confirm_arg_ok(c: Optional[T], e: Event) -> Tuple[bool, str]:
@@ -399,6 +477,20 @@ def thorough(ctx):
 
 # thorough-tier self-validation: variants of the current tree
 VARIANTS = [
+    dict(name="export-extensionless-path-unchecked", file="evo/tools/plot.py",
+         find="            if not ext:\n"
+              "                # Matplotlib appends its default format to a path without\n"
+              "                # extension: check and log the file that is actually written.\n"
+              "                ext = \".\" + mpl.rcParams[\"savefig.format\"]\n",
+         replace="", expect="fire", rule="C17.6"),
+    dict(name="export-extension-guard-other-spelling",
+         file="evo/tools/plot.py",
+         find="            if not ext:\n"
+              "                # Matplotlib appends its default format to a path without\n"
+              "                # extension: check and log the file that is actually written.\n"
+              "                ext = \".\" + mpl.rcParams[\"savefig.format\"]\n",
+         replace="            if ext == \"\":\n"
+                 "                ext = \".png\"\n", expect="silent"),
     dict(name="drop-not-at-call-site", file="evo/main_ape.py",
          find="confirm_overwrite=not args.no_warnings",
          replace="confirm_overwrite=args.no_warnings", expect="fire",
